@@ -263,3 +263,50 @@ class Ctx:
     def sched_sig(self) -> str:
         h = hashlib.sha256(",".join(map(str, self.switches)).encode()).hexdigest()
         return h[:16]
+
+
+def in_child(fn: Any, timeout: float = 120.0) -> Any:
+    """Run ``fn()`` in a forked child of this process and return its (picklable) result.
+
+    Used to compute *references* before the run itself touches process-global state with other
+    configurations (a "foreign" environment or patch built with other options): the child sees the
+    process as it is now, whatever the run does afterwards cannot reach into the reference.
+    """
+    import os
+    import pickle
+    import select
+
+    r, w = os.pipe()
+    pid = os.fork()
+    if pid == 0:
+        try:
+            os.close(r)
+            try:
+                payload = pickle.dumps(("ok", fn()))
+            except BaseException as e:  # noqa: BLE001
+                payload = pickle.dumps(("err", f"{type(e).__name__}: {e}"))
+            with os.fdopen(w, "wb") as f:
+                f.write(payload)
+        finally:
+            os._exit(0)
+    os.close(w)
+    chunks = []
+    try:
+        with os.fdopen(r, "rb") as f:
+            while True:
+                ready, _, _ = select.select([f], [], [], timeout)
+                if not ready:
+                    raise HarnessError("reference child timed out")
+                b = f.read(65536)
+                if not b:
+                    break
+                chunks.append(b)
+    finally:
+        try:
+            os.waitpid(pid, 0)
+        except ChildProcessError:
+            pass
+    kind, val = pickle.loads(b"".join(chunks))
+    if kind == "err":
+        raise HarnessError(f"reference child failed: {val}")
+    return val
